@@ -46,13 +46,17 @@ FORBIDDEN = re.compile(
 
 
 class Case:
-    __slots__ = ("line", "sig", "tag", "profile")
+    """side: "both" = implementation and model (correspondence), "impl" = implementation only
+    (relational monitors), "model" = extracted model only (spec oracle, e.g. the `sem` cases)."""
+    __slots__ = ("line", "sig", "tag", "profile", "side", "meta")
 
-    def __init__(self, line, sig=None, tag="", profile="dev"):
+    def __init__(self, line, sig=None, tag="", profile="dev", side="both", meta=None):
         self.line = line
         self.sig = sig if sig is not None else line
         self.tag = tag
         self.profile = profile
+        self.side = side
+        self.meta = meta
 
 
 # --------------------------------------------------------------------------
@@ -268,21 +272,39 @@ def run_check(mod, tier, seed):
     cases.extend(mod.gen(tier, rng))
     findings = load_findings(prop)
 
-    # run implementation (per profile) and model
-    impl = [None] * len(cases)
-    for prof in profiles:
-        idxs = [i for i, c in enumerate(cases) if c.profile == prof]
-        res = run_side(build.harness_exe(prof), [cases[i].line for i in idxs], "impl-" + prof,
-                       per_case_timeout=getattr(mod, "CASE_TIMEOUT", 0.05))
-        for i, r in zip(idxs, res):
-            impl[i] = r
-    model = [None] * len(cases)
-    if ok_drv:
-        midx = [i for i, c in enumerate(cases) if getattr(mod, "model_applies", lambda c: True)(c)]
-        res = run_side(build.driver_exe(), [cases[i].line for i in midx], "model",
-                       per_case_timeout=getattr(mod, "MODEL_CASE_TIMEOUT", 0.2))
-        for i, r in zip(midx, res):
-            model[i] = r
+    # run implementation (per profile) and model; a module may add a second phase of cases
+    # that depend on the first results (e.g. "type the listing just obtained into a fresh interpreter")
+    impl = []
+    model = []
+
+    def run_batch(batch):
+        bi = [None] * len(batch)
+        bm = [None] * len(batch)
+        for prof in profiles:
+            idxs = [i for i, c in enumerate(batch) if c.profile == prof and c.side in ("both", "impl")]
+            res = run_side(build.harness_exe(prof), [batch[i].line for i in idxs], "impl-" + prof,
+                           per_case_timeout=getattr(mod, "CASE_TIMEOUT", 0.05))
+            for i, r in zip(idxs, res):
+                bi[i] = r
+        if ok_drv:
+            midx = [i for i, c in enumerate(batch) if c.side in ("both", "model")]
+            res = run_side(build.driver_exe(), [batch[i].line for i in midx], "model",
+                           per_case_timeout=getattr(mod, "MODEL_CASE_TIMEOUT", 0.5))
+            for i, r in zip(midx, res):
+                bm[i] = r
+        return bi, bm
+
+    bi, bm = run_batch(cases)
+    impl.extend(bi)
+    model.extend(bm)
+    second = getattr(mod, "second_phase", None)
+    if second:
+        more = second(cases, impl, rng)
+        if more:
+            bi, bm = run_batch(more)
+            cases.extend(more)
+            impl.extend(bi)
+            model.extend(bm)
 
     # monitors (spec verdict on the implementation) and correspondence
     mon_fail = []
@@ -293,13 +315,17 @@ def run_check(mod, tier, seed):
     for i, c in enumerate(cases):
         r = impl[i]
         dist[c.tag] = dist.get(c.tag, 0) + 1
-        v = mod.monitor(c, r)
-        if v:
-            mon_fail.append((i, v))
-        if model[i] is not None and canon(c, model[i]) != canon(c, r):
+        if c.side in ("both", "impl"):
+            v = mod.monitor(c, r)
+            if v:
+                mon_fail.append((i, v))
+            if mod.nontrivial(c, r):
+                nontrivial.add(c.line)
+        if c.side == "both" and model[i] is not None and canon(c, model[i]) != canon(c, r):
             diffs.append(i)
-        if mod.nontrivial(c, r):
-            nontrivial.add(c.line)
+    cross = getattr(mod, "cross_monitor", None)
+    if cross:
+        mon_fail.extend(cross(cases, impl, model))
 
     reported = set()
     for i, v in mon_fail:
@@ -312,7 +338,7 @@ def run_check(mod, tier, seed):
         if hit:
             known_hits.setdefault(hit["cls"], (hit, c.sig))
             continue
-        key = v.split(":")[0]
+        key = v[:14]
         if key in reported and len(violations) >= 5:
             continue
         reported.add(key)
@@ -391,6 +417,8 @@ def write_evidence(mod, tier, seed, t0, audit, cases, impl, nontrivial, nviol, e
         exhaustive=bool(getattr(mod, "EXHAUSTIVE", {}).get(tier, False)),
     )
     cov.update(extra)
+    if getattr(mod, "STATS", None):
+        cov["monitor_stats"] = dict(mod.STATS)
     ev = dict(property_id=mod.PROPERTY, tier=tier, seed=seed, level="proof", coverage=cov,
               assumptions=getattr(mod, "ASSUMPTIONS", []), wall_s=round(time.time() - t0, 2), violations=nviol)
     with open(os.path.join(EVID, mod.PROPERTY + ".json"), "w") as f:
